@@ -382,6 +382,7 @@ Theorem apply_with_safe matchf :
   forall d q u upsert filters now, safe (apply_with matchf d q u upsert filters now).
 Proof.
   intros Hm d q u upsert filters now. unfold apply_with. destruct u as [|e t]; [exact I|].
+  destruct (conflicting_path (e :: t)); [exact I|].
   apply bind_safe_all; [apply apply_ops_safe; exact Hm|]. intros [d' ch]. exact I.
 Qed.
 
